@@ -663,6 +663,12 @@ impl<'a> Engine<'a> {
             }
             if forget {
                 std::mem::forget(d);
+            } else if self.rng.chance(1, 3) {
+                if !self.light { self.cx.rep.hit("drain:dropped-by-unwinding"); }
+                let _ = fault::catch(move || {
+                    let _hold = d;
+                    panic!("the consumer of the drain panics");
+                });
             } else {
                 drop(d);
             }
@@ -733,6 +739,12 @@ impl<'a> Engine<'a> {
         }
         if forget {
             std::mem::forget(it);
+        } else if self.rng.chance(1, 3) {
+            if !self.light { self.cx.rep.hit("consume:dropped-by-unwinding"); }
+            let _ = fault::catch(move || {
+                let _hold = it;
+                panic!("the consumer of the iterator panics");
+            });
         } else {
             drop(it);
         }
@@ -1091,7 +1103,15 @@ impl<'a> Engine<'a> {
                     self.cx.rep.evaluations += 1;
                     self.cx.rep.hit("drop-copy");
                     let dead = suts.remove(ix);
-                    drop(dead);
+                    if self.rng.chance(1, 3) {
+                        self.cx.rep.hit("drop-copy:by-unwinding");
+                        let _ = fault::catch(move || {
+                            let _hold = dead;
+                            panic!("the owner of the container panics");
+                        });
+                    } else {
+                        drop(dead);
+                    }
                 }
             }
             _ => unreachable!(),
@@ -1212,7 +1232,29 @@ impl<'a> Engine<'a> {
         let steps = if N > 256 { self.rng.length(N / 2, N) } else if N > 32 { self.rng.length(3 * N, (5 * N).max(max_steps)) } else { self.rng.length(8, max_steps) };
         let mut escaped = false;
         for _ in 0..steps {
-            match fault::catch(|| self.one_op(&mut suts)) {
+            let during_unwind = !self.light && self.rng.chance(1, 60);
+            if during_unwind {
+                self.cx.rep.hit("step-during-unwind");
+            }
+            let stepped = fault::catch(|| {
+                if during_unwind {
+                    struct OnUnwind<G: FnMut()>(G);
+                    impl<G: FnMut()> Drop for OnUnwind<G> {
+                        fn drop(&mut self) {
+                            (self.0)()
+                        }
+                    }
+                    let _g = OnUnwind(|| self.one_op(&mut suts));
+                    panic!("<<unwind-carrier>>");
+                } else {
+                    self.one_op(&mut suts)
+                }
+            });
+            let stepped = match stepped {
+                Caught::Panic(m) if during_unwind && m == "<<unwind-carrier>>" => Caught::Ok(()),
+                other => other,
+            };
+            match stepped {
                 Caught::Ok(()) => {}
                 Caught::Panic(msg) => {
                     let (_, _, op) = ledger::ctx();
